@@ -258,6 +258,57 @@ pub fn explore(opts: &Opts) -> Explored {
             }
         }
     }
+    // one node with more consumers than a 16-bit counter can hold, summed by one n-ary user op
+    {
+        use corgi::array::{Array, BackwardOp, ForwardOp};
+        use corgi::numbers::Float;
+        use std::rc::Rc;
+        let l = &mut total;
+        for n in [300usize, 65537, 70000] {
+            let case = || format!("one node with {} consumers", n);
+            if !l.want(&case) {
+                continue;
+            }
+            l.states += 1;
+            l.transitions += 1;
+            l.validated += 1;
+            let r = run_catch(|| {
+                let a = Array::from(vec![1.5 as Float]).tracked();
+                let x = user_op(&OpK::UScale(2.0), &[&a], 1);
+                let scaled: Vec<Array> = (0..n).map(|i| &x * (if i % 2 == 0 { 1.0 } else { 2.0 } as Float)).collect();
+                let fwd: ForwardOp = Rc::new(|xs: &[&Array]| Array::from(vec![xs.iter().map(|v| v.values()[0]).sum::<Float>()]));
+                let bwd: BackwardOp = Rc::new(move |_, t, d| {
+                    log_push(2, &[], d);
+                    t.iter().map(|tr| if *tr { Some(Array::from(d.values().to_vec())) } else { None }).collect()
+                });
+                let refs: Vec<&Array> = scaled.iter().collect();
+                let y = Array::op(&refs, fwd, Some(bwd));
+                let _ = take_user_log();
+                y.backward(None);
+                let ga: Option<Vec<Float>> = a.gradient().as_ref().map(|g| g.values().to_vec());
+                (take_user_log(), ga)
+            });
+            match r {
+                Err(m) => {
+                    let _ = take_user_log();
+                    l.violation("wide-fan-out", case(), format!("panicked: {}", m));
+                }
+                Ok((log, ga)) => {
+                    let want_x: f64 = (0..n).map(|i| if i % 2 == 0 { 1.0 } else { 2.0 }).sum();
+                    let xs: Vec<&LogEntry> = log.iter().filter(|e| e.tag == 1).collect();
+                    l.outcome(digest_str(&format!("{}:{}", n, log.len())));
+                    if xs.len() != 1 || log.iter().filter(|e| e.tag == 2).count() != 1 {
+                        l.violation("wide-fan-out", case(), format!("the shared node's derivative ran {} times (deltas {:?}), the sum's {} times", xs.len(), xs.iter().map(|e| e.delta[0]).collect::<Vec<_>>(), log.iter().filter(|e| e.tag == 2).count()));
+                    } else if xs[0].delta[0] as f64 != want_x {
+                        l.violation("wide-fan-out", case(), format!("the shared node received {} instead of the complete adjoint {}", xs[0].delta[0], want_x));
+                    } else if ga != Some(vec![(2.0 * want_x) as Float]) {
+                        l.violation("wide-fan-out", case(), format!("gradient of the leaf {:?}, expected {}", ga, 2.0 * want_x));
+                    }
+                }
+            }
+            l.sample(&case);
+        }
+    }
     // histories: handles paused / resumed / re-bound between passes, with the same log oracle (E3)
     let machine_stats = {
         use crate::checks::c10::{base_cfg, run_all};
